@@ -338,6 +338,17 @@ int main()
                 // bk <n> <shift> <uplo: L|U> <rowmajor 0|1> <A n*n col-major> <b n>
                 Reader r(t, 1); long n = r.integer(); double shift = r.real(); std::string ul = t[r.i++]; long rm = r.integer(); Mat A = r.mat(n, n); Vec b = r.vec(n);
                 BKLDLT<double> bk;
+                // history: the object has already factorized other matrices (same size with row interchanges and 2x2 pivots,
+                // the same matrix with another shift, a larger one); the model is a function of THIS call's arguments only
+                // (C10_info_fresh, bk_compute), so nothing of the history may survive into the compared state or solution
+                if (n >= 2)
+                {
+                    Mat H0(n, n); for (long i = 0; i < n; i++) for (long j = 0; j < n; j++) H0(i, j) = (i == j) ? 0.0 : 1.0 + double((std::max(i, j) * 7 + std::min(i, j) * 3) % 5);
+                    bk.compute(H0, Eigen::Lower, 0.25); if (bk.info() == CompInfo::Successful) { Vec y = bk.solve(b); (void) y; }
+                    Mat H1 = Mat::Identity(n + 1, n + 1); H1(n, 0) = 3.0; H1(0, n) = 3.0; bk.compute(H1, Eigen::Upper, 0.0);
+                    bk.compute(H0, Eigen::Upper, -1.5);
+                    bk.compute(A, ul == "L" ? Eigen::Lower : Eigen::Upper, shift + 0.75);
+                }
                 if (rm) { Eigen::Matrix<double, Eigen::Dynamic, Eigen::Dynamic, Eigen::RowMajor> Ar = A; bk.compute(Ar, ul == "L" ? Eigen::Lower : Eigen::Upper, shift); }
                 else bk.compute(A, ul == "L" ? Eigen::Lower : Eigen::Upper, shift);
                 o << (int) bk.info() << ' ';
